@@ -5,10 +5,12 @@ import (
 	"math/rand"
 	"sort"
 	"strings"
+	"sync"
 	"sync/atomic"
 	"time"
 
 	"github.com/nsqio/nsq/internal/verif"
+	"github.com/nsqio/nsq/nsqd"
 	"github.com/nsqio/nsq/verifharness/hlib"
 )
 
@@ -21,7 +23,21 @@ func restartScenario(sc Scenario, dir string) ([]verif.Event, *RunResult) {
 	rec.Install()
 	finish := func() []verif.Event { rec.Uninstall(); return rec.Take() }
 	hlib.Emit("Reset", "scenario", res.Scenario, "now", time.Now().UnixNano())
-	nd, err := startNode(dir, r.nodeOpts)
+	var lkd *lookupdInst
+	if r.rng.Intn(2) == 0 {
+		// with an nsqlookupd configured the lookup loop handles every notification with a network round trip
+		if li, err := startLookupd(); err == nil {
+			lkd = li
+			defer li.l.Exit()
+		}
+	}
+	opts := func(o *nsqd.Options) {
+		r.nodeOpts(o)
+		if lkd != nil {
+			o.NSQLookupdTCPAddresses = []string{lkd.tcp}
+		}
+	}
+	nd, err := startNode(dir, opts)
 	if err != nil {
 		res.Inconclusive = "start nsqd: " + err.Error()
 		return finish(), res
@@ -29,6 +45,14 @@ func restartScenario(sc Scenario, dir string) ([]verif.Event, *RunResult) {
 	r.nd = nd
 	pausedT := map[string]bool{}
 	pausedC := map[string]bool{}
+	// in half of the runs the first topic stays paused while everything is published (its queue fills up) and is
+	// unpaused a few hundred microseconds before the shutdown: the topic pump is then in the middle of copying a
+	// backlog to the channels when Exit arrives
+	fanoutRun := r.rng.Intn(2) == 0
+	if fanoutRun {
+		sc.NMsg *= 3
+		r.sc.NMsg = sc.NMsg
+	}
 	for _, t := range sc.Topics {
 		r.httpAdmin("/topic/create?topic=" + t)
 		for _, c := range sc.Channels[t] {
@@ -38,7 +62,7 @@ func restartScenario(sc Scenario, dir string) ([]verif.Event, *RunResult) {
 				pausedC[t+"/"+c] = true
 			}
 		}
-		if r.rng.Intn(5) == 0 {
+		if r.rng.Intn(5) == 0 || (fanoutRun && t == sc.Topics[0]) {
 			r.httpAdmin("/topic/pause?topic=" + t)
 			pausedT[t] = true
 		}
@@ -79,6 +103,46 @@ func restartScenario(sc Scenario, dir string) ([]verif.Event, *RunResult) {
 		}
 		close(pubDone)
 	}()
+	// channels keep being created while the shutdown is requested (each creation spawns a notify goroutine that
+	// persists the metadata); what was acknowledged before the request must exist after the restart
+	var createdBefore []string
+	var cmu sync.Mutex
+	churnStop := make(chan struct{})
+	churnDone := make(chan struct{})
+	burst := r.rng.Intn(2) == 0
+	go func() {
+		defer close(churnDone)
+		if !burst {
+			return
+		}
+		for i := 0; ; i++ {
+			select {
+			case <-churnStop:
+				return
+			default:
+			}
+			t := sc.Topics[i%len(sc.Topics)]
+			name := fmt.Sprintf("late%d", i)
+			st, _, err := nd.post("/channel/create?topic="+t+"&channel="+name, nil)
+			if err != nil || st != 200 {
+				return
+			}
+			if atomic.LoadInt32(&r.exiting) == 0 {
+				cmu.Lock()
+				createdBefore = append(createdBefore, t+"/"+name)
+				cmu.Unlock()
+			}
+			if i > 400 {
+				return
+			}
+		}
+	}()
+	// a paused topic that has accumulated a backlog is unpaused just before the shutdown: its pump is busy
+	// copying messages to the channels when Exit arrives
+	fanout := ""
+	if fanoutRun {
+		fanout = sc.Topics[0]
+	}
 	// shutdown either in the middle of publishing or some time after it
 	if r.rng.Intn(2) == 0 {
 		time.Sleep(time.Duration(5+r.rng.Intn(60)) * time.Millisecond)
@@ -89,6 +153,15 @@ func restartScenario(sc Scenario, dir string) ([]verif.Event, *RunResult) {
 		}
 		time.Sleep(time.Duration(r.rng.Intn(150)) * time.Millisecond)
 	}
+	if fanout != "" {
+		select {
+		case <-pubDone:
+		case <-time.After(60 * time.Second):
+		}
+		r.httpAdmin("/topic/unpause?topic=" + fanout)
+		delete(pausedT, fanout)
+		time.Sleep(time.Duration(r.rng.Intn(300)) * time.Microsecond)
+	}
 	atomic.StoreInt32(&r.exiting, 1)
 	hlib.Emit("HExitReq")
 	if err := nd.stop(60 * time.Second); err != nil {
@@ -96,6 +169,8 @@ func restartScenario(sc Scenario, dir string) ([]verif.Event, *RunResult) {
 		return finish(), res
 	}
 	hlib.Emit("HExitDone")
+	close(churnStop)
+	<-churnDone
 	atomic.StoreInt32(&r.stop, 1)
 	select {
 	case <-pubDone:
@@ -110,7 +185,7 @@ func restartScenario(sc Scenario, dir string) ([]verif.Event, *RunResult) {
 	r.consMu.Unlock()
 	r.wg.Wait()
 	// ---- second lifetime
-	nd2, err := startNode(dir, r.nodeOpts)
+	nd2, err := startNode(dir, opts)
 	if err != nil {
 		r.failf("[C05] nsqd does not start again on the data path after a graceful shutdown: %v", err)
 		res.Fails = r.fails
@@ -140,6 +215,15 @@ func restartScenario(sc Scenario, dir string) ([]verif.Event, *RunResult) {
 		for _, cs := range ts.Channels {
 			gotC[cs.Name] = cs
 		}
+		cmu.Lock()
+		for _, tc := range createdBefore {
+			if strings.HasPrefix(tc, t+"/") {
+				if _, ok := gotC[strings.TrimPrefix(tc, t+"/")]; !ok {
+					r.failf("[C05] channel %s, whose creation was acknowledged before the shutdown request, is missing after restart", tc)
+				}
+			}
+		}
+		cmu.Unlock()
 		for _, c := range sc.Channels[t] {
 			cs, ok := gotC[c]
 			if !ok {
@@ -155,15 +239,17 @@ func restartScenario(sc Scenario, dir string) ([]verif.Event, *RunResult) {
 	r.nd = nd2
 	atomic.StoreInt32(&r.draining, 1)
 	r.cons = nil
-	for _, t := range append(append([]string{}, sc.Topics...), "lonely") {
-		r.httpAdmin("/topic/unpause?topic=" + t)
-		chans := sc.Channels[t]
-		if t == "lonely" {
-			chans = []string{"late"}
-		}
-		for _, c := range chans {
-			r.httpAdmin("/channel/unpause?topic=" + t + "&channel=" + c)
-			if _, err := r.newConsumer(t, c, 0, 5); err != nil {
+	r.httpAdmin("/channel/create?topic=lonely&channel=late")
+	st2, _, err := nd2.stats("")
+	if err != nil {
+		res.Inconclusive = "stats after restart: " + err.Error()
+		return finish(), res
+	}
+	for _, ts := range st2.Topics {
+		r.httpAdmin("/topic/unpause?topic=" + ts.Name)
+		for _, cs := range ts.Channels {
+			r.httpAdmin("/channel/unpause?topic=" + ts.Name + "&channel=" + q(cs.Name))
+			if _, err := r.newConsumer(ts.Name, cs.Name, 0, 5); err != nil {
 				res.Inconclusive = "drain consumer: " + err.Error()
 				return finish(), res
 			}
